@@ -14,7 +14,6 @@ func genOpts(strict bool) refjs.GenOpts {
 	o := refjs.GenOpts{Strict: strict}
 	if noExclusions {
 		o.NamedFuncExprNonSimple = true
-		o.ParamDefaultNames = true
 		o.JumpOutOfFinally = false // (not patched in any tree)
 	}
 	return o
@@ -22,11 +21,8 @@ func genOpts(strict bool) refjs.GenOpts {
 
 func init() {
 	if noExclusions {
-		refjs.Known.MulNegZero = false
-		refjs.Known.MappedArgsEval = false
-		refjs.Known.EvalVarFuncName = false
-		refjs.Known.ParamDefaultName = false
-		refjs.Known.ComputedKeyOverAccessor = false
+		// findings with a patch that the scratch worktree under test contains
+		refjs.Known.ThisInEvalBeforeSuper = false
 	}
 }
 
